@@ -9,4 +9,12 @@ require (
 	golang.org/x/text v0.21.0
 )
 
+require (
+	github.com/gdamore/encoding v1.0.1 // indirect
+	github.com/lucasb-eyer/go-colorful v1.2.0 // indirect
+	github.com/rivo/uniseg v0.4.3 // indirect
+	golang.org/x/sys v0.29.0 // indirect
+	golang.org/x/term v0.28.0 // indirect
+)
+
 replace github.com/gdamore/tcell/v2 => /repo
